@@ -510,7 +510,7 @@ pub fn session_opts(r: &mut Rng, id: String, focus: &str, nops: u32, via: u32, b
         }
         ops.push(Op::Api(c));
     }
-    Session { columns: c0, lines: l0, bytes, id, ops }
+    Session { columns: c0, lines: l0, bytes, events_only: false, id, ops }
 }
 
 pub fn push_feed(r: &mut Rng, ops: &mut Vec<Op>, s: &str, bytes: bool) {
